@@ -55,7 +55,7 @@ ASSUMPTIONS = [
     "Range header characters are Latin-1 (what WSGI can deliver), no CR/LF; non-Latin-1 digits are judged by the oracle only",
     "RFC-valid ranges whose numbers have more than sys.get_int_max_str_digits() (4300) digits are refused with 400: open ledger entry D4c, generators stay below the limit",
     "resource of length 0 with a non-zero suffix range: either 416 or an empty 200/206 is accepted by the oracle (no Content-Range can name an empty body)",
-    "multi-period (/mps/...) media segments use the same generate_media_segment tail and are not requested separately",
+    "init segments advertise Accept-Ranges but ignore Range (200 + whole body): outside the property's 'resources that honour ranges'; the oracle accepts 200+full body there and still rejects 5xx / inconsistent 206",
 ]
 
 LIM = sys.get_int_max_str_digits() or 10 ** 9
@@ -528,9 +528,15 @@ LIVE_START = "2023-12-31T00:00:00Z"
 
 
 class Resource:
-    def __init__(self, kind, url, full, mandatory):
+    """one range-capable URL (path + option vector) with its full representation.
+    kind: 'seg' generated media segment, 'od' on-demand file, 'init' init segment (does not honour
+    ranges: 200 + full body is always acceptable, no model); tag: route / option class for the
+    printed distribution; light: use the compact header set"""
+
+    def __init__(self, kind, url, full, mandatory, tag="plain", light=False, altered=False):
         self.kind, self.url, self.full, self.mandatory = kind, url, full, mandatory
         self.length = len(full)
+        self.tag, self.light, self.altered = tag, light, altered
 
 
 def _fixture_path(stream, name):
@@ -589,6 +595,151 @@ def e2e_resources(ctx, app, client):
     return out
 
 
+MPS_NAME = "c13mps"
+
+
+def _ensure_mps(app):
+    """a two-Period multi-period stream (bbb then tears, the second with a source offset) created
+    through the application's models; returns [(period pk, stream directory)]"""
+    import datetime
+    with app.ctx() as models:
+        from dashlive.mpeg.dash.content_role import ContentRole
+        mps = models.MultiPeriodStream.get(name=MPS_NAME)
+        if mps is None:
+            mps = models.MultiPeriodStream(name=MPS_NAME, title="C13 ranges")
+            models.db.session.add(mps)
+            for idx, (directory, start_s, dur_s) in enumerate((("bbb", 0, 20), ("tears", 8, 16)), start=1):
+                stream = models.Stream.get(directory=directory)
+                prd = models.Period(pid=f"p{idx}", parent=mps, ordering=idx, stream=stream,
+                                    start=datetime.timedelta(seconds=start_s),
+                                    duration=datetime.timedelta(seconds=dur_s))
+                models.db.session.add(prd)
+                seen = set()
+                for mf in stream.media_files:
+                    key = (mf.track_id, mf.content_type)
+                    if key in seen or mf.encrypted:
+                        continue
+                    seen.add(key)
+                    models.db.session.add(models.AdaptationSet(
+                        period=prd, track_id=mf.track_id, role=ContentRole.MAIN,
+                        content_type=models.ContentType.get(name=mf.content_type)))
+            models.db.session.commit()
+            mps = models.MultiPeriodStream.get(name=MPS_NAME)
+        return [(prd.pk, prd.stream.directory) for prd in mps.periods]
+
+
+def option_resources(ctx, app, client, ch=None):
+    """URLs of every media route whose option vector alters the served body (video corruption of
+    exactly the requested segment, in-band events, DRM variants, bug-compatibility), $Time$
+    addressing (vod and live), multi-period routes and init segments.  The full representation is
+    always the un-ranged answer of the SAME url + options at the same clock."""
+    rng = ctx.rng("e2e-option-resources")
+    many = ctx.thorough
+    cands = []      # (tag, url, url-without-options or None)
+
+    def vod(stream, name, k, ext, q=""):
+        return f"/dash/vod/{stream}/{name}/{k}.{ext}" + (f"?{q}" if q else "")
+
+    videos = [("bbb", "bbb_v7", "m4v", 10), ("bbb", "bbb_v6", "m4v", 10), ("tears", "tears_v1", "m4v", 16)]
+    # -- videoCorruption naming the requested segment (the body is rewritten after encoding)
+    for stream, name, ext, nseg in videos[: 3 if many else 1]:
+        ks = list(range(1, nseg + 1))
+        rng.shuffle(ks)
+        found = 0
+        for k in ks:
+            plain = client.get(vod(stream, name, k, ext))
+            if plain.status_code != 200:
+                continue
+            qs = [f"vcorrupt={k}", f"vcorrupt={k}&frames={rng.choice([1, 2, 8])}",
+                  f"vcorrupt={max(1, k - 1)},{k},{k + 1}&frames=2"]
+            hit = False
+            for q in qs if many else [qs[0], rng.choice(qs[1:])]:
+                r = client.get(vod(stream, name, k, ext, q))
+                if r.status_code == 200 and r.data != plain.data:
+                    cands.append(("vcorrupt", vod(stream, name, k, ext, q), vod(stream, name, k, ext)))
+                    hit = True
+            found += hit
+            if found >= (3 if many else 1):
+                break
+    # -- in-band events (emsg boxes inserted before the moof)
+    k = rng.randrange(1, 11)
+    for q in ["events=ping", "events=scte35", "events=ping,scte35"][: 3 if many else 2]:
+        cands.append(("events", vod("bbb", "bbb_v7", k, "m4v", q), vod("bbb", "bbb_v7", k, "m4v")))
+    if many:
+        cands.append(("events", vod("tears", "tears_v1", rng.randrange(1, 17), "m4v", "events=ping&vcorrupt=1,2,3"), None))
+    # -- DRM variants of encrypted representations, bug compatibility
+    k = rng.randrange(1, 11)
+    drm = [("bbb_v7_enc", "m4v", "drm=playready"), ("bbb_a1_enc", "m4a", "drm=clearkey"),
+           ("bbb_v7_enc", "m4v", "drm=all&bugs=saio"), ("bbb_v6_enc", "m4v", "drm=marlin"),
+           ("bbb_a2_enc", "m4a", "drm=playready&playready__piff=1"), ("bbb_v7_enc", "m4v", f"drm=all&vcorrupt={k}&events=ping")]
+    for name, ext, q in drm if many else drm[:3]:
+        cands.append(("drm", vod("bbb", name, k, ext, q), None))
+    # -- $Time$ addressing: vod, and live from the timeline manifest's own <S t=...>
+    for name, ext, ts_seg in [("bbb_v7", "m4v", 960), ("bbb_a1", "m4a", 0)][: 2 if many else 1]:
+        t = ts_seg * rng.randrange(0, 10) if ts_seg else 0
+        cands.append(("vod-time", f"/dash/vod/bbb/{name}/time/{t}.{ext}", None))
+    r = client.get(f"/dash/live/bbb/hand_made.mpd?timeline=1&start={LIVE_START}")
+    if r.status_code == 200:
+        m = re.search(r'media="\$RepresentationID\$/time/\$Time\$\.(\w+)\?([^"]*)"[^>]*>\s*<SegmentTimeline>\s*<S d="(\d+)" r="(\d+)" t="(\d+)"',
+                      r.data.decode())
+        if m:
+            ext, q, d, rep, t0 = m.group(1), m.group(2).replace("&amp;", "&"), int(m.group(3)), int(m.group(4)), int(m.group(5))
+            for _ in range(2 if many else 1):
+                t = t0 + d * rng.randrange(0, rep + 1)
+                cands.append(("live-time", f"/dash/live/bbb/bbb_v7/time/{t}.{ext}?{q}", None))
+                if many:
+                    cands.append(("live-time", f"/dash/live/bbb/bbb_v7/time/{t}.{ext}?{q}&vcorrupt={t // d + 1}", None))
+    # -- multi-period routes
+    try:
+        for pk, directory in _ensure_mps(app):
+            name, ext = {"bbb": ("bbb_v7", "m4v"), "tears": ("tears_a1", "m4a")}[directory]
+            got = 0
+            for k in rng.sample(range(1, 9), 8):
+                u = f"/mps/vod/{MPS_NAME}/{pk}/{name}/{k}.{ext}"
+                if client.get(u).status_code == 200:
+                    cands.append(("mps", u, None))
+                    if directory == "bbb":
+                        cands.append(("mps", u + f"?vcorrupt={k}", None))
+                    got += 1
+                    if got >= (2 if many else 1):
+                        break
+    except Exception as e:      # the MPS could not be created: report, the other routes still run
+        if ch is not None:
+            ch.errors.append(f"multi-period stream: {type(e).__name__}: {e}")
+    # -- init segments (Accept-Ranges is advertised, Range is ignored)
+    inits = [("init", "/dash/vod/bbb/bbb_v7/init.m4v", None), ("init", "/dash/vod/bbb/bbb_a1_enc/init.m4a?drm=all", None),
+             ("init", f"/dash/live/tears/tears_v1/init.m4v?start={LIVE_START}", None)]
+    cands += inits if many else inits[:2]
+
+    out = []
+    for tag, u, plain_url in cands:
+        r1, r2 = client.get(u), client.get(u)
+        if r1.status_code != 200 or r1.data != r2.data:
+            if ch is not None:
+                ch.count(f"option-url-skipped:{tag}")
+            continue
+        altered = plain_url is not None and client.get(plain_url).data != r1.data
+        out.append(Resource("init" if tag == "init" else "seg", u, r1.data, False, tag=tag, light=True,
+                            altered=altered))
+    return out
+
+
+def compact_headers(ctx, res: Resource, rng):
+    """absent + every first-last / first- / -suffix combination around 0, 1, len/2, len-2..len+1, 2^63
+    + a few lenient and malformed spellings"""
+    n = res.length
+    vs = sorted({v for v in (0, 1, n // 2, n - 2, n - 1, n, n + 1, 2 ** 63) if v >= 0})
+    hs = [None]
+    for a in vs:
+        hs += [f"bytes={a}-", f"bytes=-{a}"]
+        hs += [f"bytes={a}-{b}" for b in vs]
+    for w in rng.sample(VARIANT_WRAPS, 3):
+        hs.append(w(rng.choice(vs), rng.choice(vs + [""])))
+    hs += rng.sample(MALFORMED + UNICODE, ctx.scale(10, 40))
+    hs += [random_header(rng, n) for _ in range(ctx.scale(5, 60))]
+    return hs
+
+
 def e2e_get(client, res: Resource, hdr):
     try:
         r = client.get(res.url, headers={} if hdr is None else {"Range": hdr})
@@ -635,6 +786,9 @@ def judge_e2e(client, res: Resource, hdr):
     o = e2e_get(client, res, hdr)
     if o is None:
         return None, None
+    if res.kind == "init" and o["status"] == 200:
+        # not a range-honouring resource: the whole init segment is always an acceptable answer
+        return o, (None if o["body"] == res.full else "200 without the full body")
     return o, judge(hdr, res.length, obs_e2e(o, res), res.mandatory)
 
 
@@ -675,6 +829,11 @@ def run_e2e(ctx, ch: Channel):
         resources = e2e_resources(ctx, app, client)
         if len(resources) < 5:
             ch.errors.append(f"only {len(resources)} range-capable fixture URLs answered 200")
+        opt = option_resources(ctx, app, client, ch)
+        if not any(r.tag == "vcorrupt" and r.altered for r in opt) or len(opt) < 6:
+            ch.errors.append("no URL whose option vector alters the served segment could be built "
+                             f"({[r.tag for r in opt]})")
+        resources += opt
         for res in resources:
             if res.kind == "od":
                 with app.ctx() as models:
@@ -682,10 +841,13 @@ def run_e2e(ctx, ch: Channel):
                     mf = models.MediaFile.get(name=name)
                     if mf is None or mf.blob.size != res.length:
                         ch.errors.append(f"blob.size of {name} differs from the stored file")
-            hs = e2e_headers(ctx, res, rng)
+            hs = compact_headers(ctx, res, rng) if res.light else e2e_headers(ctx, res, rng)
+            ch.count(f"route/options:{res.tag}", len(hs))
+            if res.altered:
+                ch.count("resources-whose-body-is-altered-by-options")
             lines, idx = [], []
             for i, h in enumerate(hs):
-                if in_model_domain(h):
+                if in_model_domain(h) and res.kind != "init":
                     lines.append(f"rangeresp {res.kind} {LIM} {res.length} {enc_hdr(h)}")
                     idx.append(i)
             try:
@@ -701,7 +863,7 @@ def run_e2e(ctx, ch: Channel):
                 ch.evaluations += 1
                 ch.count(f"{res.kind}:status:{o['status']}")
                 ch.count(f"class:{classify(h)[0]}")
-                ch.count(f"resource:{res.url.split('?')[0]}")
+                ch.count(f"resource:{res.url}")
                 if why is not None:
                     _record(ch.oracle_failures, ch, "oracle_failures",
                             lambda: e2e_failure(client, res, h, why, o, shrink=len(ch.oracle_failures) < MAX_SHRUNK))
@@ -713,6 +875,8 @@ def run_e2e(ctx, ch: Channel):
                                  "model": model[i], "impl": impl})
                     if o["status"] in (206, 416):
                         ch.nontrivial.add((res.url, h))
+                elif res.kind == "init":
+                    ch.count("init-segment(oracle only)")
                 else:
                     ch.count("outside-model-domain(oracle only)")
                 if o["status"] == 206 and classify(h)[0] != "other":
@@ -746,10 +910,14 @@ def channels(ctx):
     else:
         yield ch
     ch2 = Channel("range_e2e", rule=(
-        "ranged GETs through the booted Flask app (fixture streams bbb, tears; fixed clock): generated media "
-        "segments (vod by number, live by number, text/audio/video) and on-demand files; status, Content-Range, "
-        "Content-Length and body (vs the un-ranged body / stored file) compared with the model's whole response "
-        "and judged by the RFC 7233 oracle; non-trivial = 206 or 416; distinct by (url, header)"))
+        "ranged GETs through the booted Flask app (fixture streams bbb, tears; fixed clock). Every URL = path + "
+        "option vector; its full representation is the un-ranged answer of the SAME url at the same clock (stored "
+        "file for on-demand URLs) and every ranged answer (status, Content-Range incl. total, Content-Length, bytes) "
+        "is compared with it by the RFC 7233 oracle and with the model's whole response. Routes: vod/live segments "
+        "by number and by $Time$, on-demand files, multi-period (/mps) segments, init segments (oracle only); "
+        "option vectors that alter the served body: vcorrupt naming the requested segment (+frames), events=ping/"
+        "scte35 (in-band emsg), drm=playready/clearkey/marlin/all on encrypted files, bugs=saio; non-trivial = 206 "
+        "or 416; distinct by (url, header)"))
     try:
         run_e2e(ctx, ch2)
     except Exception as e:
@@ -780,10 +948,12 @@ def run_case(case):
                 full = _fixture_path(parts[3], parts[4].rsplit(".", 1)[0]).read_bytes()
                 res = Resource("od", url, full, True)
             else:
+                if url.startswith("/mps/"):
+                    _ensure_mps(app)
                 r = client.get(url)
                 if r.status_code != 200:
                     return False, {"note": f"un-ranged GET of {url} answered {r.status_code}"}
-                res = Resource("seg", url, r.data, False)
+                res = Resource("init" if "/init." in url else "seg", url, r.data, False)
             o, why = judge_e2e(client, res, hdr)
             if o is None:
                 return False, {"note": "header cannot be delivered"}
@@ -822,6 +992,11 @@ def search(ctx, disagreements):
     with appboot.Clock(CLOCK0):
         for res in e2e_resources(ctx, app, client):
             for h in [None] + boundary_headers(res.length) + MALFORMED + UNICODE:
+                o, why = judge_e2e(client, res, h)
+                if why is not None:
+                    return e2e_failure(client, res, h, why, o)
+        for res in option_resources(ctx, app, client):
+            for h in compact_headers(ctx, res, rng):
                 o, why = judge_e2e(client, res, h)
                 if why is not None:
                     return e2e_failure(client, res, h, why, o)
